@@ -71,6 +71,9 @@ type Op struct {
 	MD   metadata.MD   // header/trailer ops
 	D    time.Duration // OpSleep
 	St   *spb.Status   // OpReturn (nil = OK)
+	// Insist: carry on with the script when this send is refused (an
+	// application that retries)
+	Insist bool
 }
 
 // OpResult is attached to EvOpReturn.
@@ -506,7 +509,7 @@ func (h *hstream) exec(actor string, ops []Op) (bool, error) {
 				}
 			}
 		case OpSend:
-			if err := h.send(actor, op.N); err != nil {
+			if err := h.send(actor, op.N); err != nil && !op.Insist {
 				return false, err
 			}
 			sendIdx = op.N + 1
@@ -632,7 +635,11 @@ func (w *World) RunCaller(parent context.Context, cc grpc.ClientConnInterface, p
 		md[k] = append([]string(nil), v...)
 	}
 	md.Set("sim-rpc", strconv.Itoa(p.ID))
-	if p.GrpcTimeout != "" || p.timeoutClass != "" {
+	if p.GrpcTimeout == timeoutNoValues {
+		if md["grpc-timeout"] == nil {
+			md["grpc-timeout"] = []string{}
+		}
+	} else if p.GrpcTimeout != "" || p.timeoutClass != "" {
 		md.Append("grpc-timeout", p.GrpcTimeout)
 	}
 	if p.Bare {
@@ -818,7 +825,7 @@ func (c *cstream) exec(actor string, ops []Op) {
 		c.maybeCancel(actor, i, true)
 		switch op.Kind {
 		case OpSend:
-			if !c.sendOne(actor, op.N) {
+			if !c.sendOne(actor, op.N) && !op.Insist {
 				return
 			}
 			c.sendIdx = op.N + 1
